@@ -38,13 +38,16 @@ def run(ctx):
         vlib.violation(ctx, "catalogue-" + c["pkg"], dict(semlib.replay_of(cmd, c), kind="a construct of the catalogue is translated to GooseLang that does not compute what Go computes"), True)
         found = True
     # generated packages
-    plan = [("default", 24), ("core", 12), ("minigo", 12)] if quick else [("default", 500), ("core", 300), ("minigo", 300), ("noshadow", 200)]
+    plan = [("default", 20), ("minigol", 12), ("minigo", 8)] if quick else [("default", 500), ("core", 300), ("minigo", 300), ("minigol", 400), ("noshadow", 200)]
     evals = calls = 0
     samples = []
     for i, (profile, n) in enumerate(plan):
         cmdp, cases, stp = semlib.run_semdrv(ctx, profile, ctx.seed * 1000 + i, n)
         evals += stp["cases"]
         calls += stp["calls"]
+        if stp.get("model_funcs"):
+            ctx.cov["functions_compared_with_translator_model_" + profile] = stp["model_funcs"]
+            ctx.cov["calls_compared_with_go_model_" + profile] = stp.get("model_calls", 0)
         if not samples and cases:
             samples.append(cases[0].get("go", "")[:1500])
         badp = [c for c in cases if c["mismatches"]]
